@@ -86,6 +86,11 @@ func (d *rawDecoder) Scan(ctx context.Context) (DecodedAmmo, error) {
 		}
 
 		data, err = d.reader.ReadString('\n')
+		if err == io.EOF && len(strings.TrimSpace(data)) != 0 {
+			// the last line of the file has no trailing newline: it is a line like any other
+			// (a file cut inside or right after a size line must fail, not end the pass)
+			err = nil
+		}
 		if err == io.EOF {
 			d.passNum++
 			if d.config.Passes != 0 && d.passNum >= d.config.Passes {
